@@ -114,7 +114,7 @@ def parse_chain(case):
 def run_chain(case, xforms):
     """whole chain through the real execute_xforms -> canonical final frame"""
     s = impl_objs()
-    fr = s['Frame'](img_of(case), {}, case['fmt'])
+    fr = s['Frame'].from_jpg(bytes.fromhex(case['jpg_hex']), {}, case['h'], case['w'], case['fmt']) if case.get('jpg_hex') else s['Frame'](img_of(case), {}, case['fmt'])
     try:
         out = s['u'].execute_xforms(s['adict'](topic='main', frame=fr, xforms=list(xforms))).frame
         im = out.image
@@ -175,9 +175,9 @@ def np_perm(np, action, img):
 def chain_oracle(case, xforms):
     """run the chain one transform at a time and evaluate each clause on the real intermediate frames"""
     s = impl_objs(); np = s['np']
-    fr = s['Frame'](img_of(case), {}, case['fmt'])
+    fr = s['Frame'].from_jpg(bytes.fromhex(case['jpg_hex']), {}, case['h'], case['w'], case['fmt']) if case.get('jpg_hex') else s['Frame'](img_of(case), {}, case['fmt'])
     out = []
-    hist = [fr.image.copy()]
+    hist = [img_of(case).copy()]      # (not fr.image: reading it would decode a jpg-only frame before the first transform sees it)
     for k, x in enumerate(xforms):
         a = x.action
         before = hist[-1]; bfmt = fr.format; w, h = fr.width, fr.height
@@ -341,8 +341,15 @@ def gen_chain(rng, big=False):
     else:
         w, h = rng.randint(1, 8), rng.randint(1, 8)
         px = [[[rng.randrange(256)] if fmt == 'GRAY' else [rng.randrange(256) for _ in range(3)] for _ in range(w)] for _ in range(h)]
-    return {'k': 'chain', 'w': w, 'h': h, 'fmt': fmt, 'ro': rng.random() < 0.4, 'px': px, 'xf': xf,
+    case = {'k': 'chain', 'w': w, 'h': h, 'fmt': fmt, 'ro': rng.random() < 0.4, 'px': px, 'xf': xf,
             'boxexact': all(x['m'].get('den', 64) == 64 for x in xf)}
+    if px is not None and rng.random() < 0.25:
+        # the frame arrives as an undecoded JPEG (what MQ hands a filter when upstream publishes jpg): the pixels the transforms see are what that JPEG decodes to
+        o = impl_objs(); np, cv2 = o['np'], o['cv2']
+        jpg = bytes(cv2.imencode('.jpg', img_of(case))[1])
+        dec = cv2.imdecode(np.frombuffer(jpg, np.uint8), cv2.IMREAD_GRAYSCALE if fmt == 'GRAY' else cv2.IMREAD_COLOR)
+        case['px'] = px_of(dec); case['jpg_hex'] = jpg.hex(); case['ro'] = True
+    return case
 
 
 def gen_idiom(rng):
